@@ -67,6 +67,16 @@ func main() {
 		code := runC13(tierArg())
 		cleanupAll()
 		os.Exit(code)
+	case "dump-specs":
+		r := newRng(envSeed(), hashLabel("c16"))
+		for i := 0; i < 32; i++ {
+			gp := drawSpec(r, fmt.Sprintf("p%03d", i), specBias{nullableLoops: 55, leftRec: 12, states: 45, preds: 60, actions: 80, throws: 30, optimized: 30, display: 10, unicode: 40})
+			fmt.Printf("=== %s %v\n%s\n", gp.Name, gp.Flags, gp.Text)
+		}
+	case "C16":
+		code := runC16(tierArg())
+		cleanupAll()
+		os.Exit(code)
 	case "C19":
 		code := runC19(tierArg())
 		cleanupAll()
